@@ -11,12 +11,14 @@ import (
 	"io"
 	"log"
 	"os"
+	"os/exec"
 	"path/filepath"
 	"reflect"
 	"sort"
 	"strings"
 
 	"github.com/sourcegraph/zoekt"
+	"github.com/sourcegraph/zoekt/gitindex"
 	"github.com/sourcegraph/zoekt/index"
 	"github.com/sourcegraph/zoekt/verifhooks"
 
@@ -819,6 +821,141 @@ func (e *env) runStep(c stepCase) {
 	e.w.Emit(gen.Case{Go: goV, Key: key, Class: "step-" + string(st), Nontrivial: st != index.IndexStateEqual, Detail: detail})
 }
 
+
+// ---------------------------------------------------------------- end to end through gitindex (real git repository)
+
+type gitCase struct {
+	Op     string `json:"op"`     // git
+	Change string `json:"change"` // none | commit | branch | sizemax | largefiles | trigrammax | config-add | config-change | config-remove
+}
+
+var gitChanges = []string{"none", "commit", "branch", "sizemax", "largefiles", "trigrammax", "config-add", "config-change", "config-remove"}
+
+func git(dir string, args ...string) {
+	cmd := exec.Command("git", args...)
+	cmd.Dir = dir
+	cmd.Env = append(os.Environ(), "GIT_CONFIG_NOSYSTEM=1", "HOME="+dir, "GIT_AUTHOR_DATE=2024-01-01T00:00:00Z", "GIT_COMMITTER_DATE=2024-01-01T00:00:00Z")
+	if out, err := cmd.CombinedOutput(); err != nil {
+		panic(fmt.Sprintf("git %v: %v: %s", args, err, out))
+	}
+}
+
+func gitCommitAll(dir, msg string) {
+	git(dir, "add", "-A")
+	git(dir, "-c", "user.name=verif", "-c", "user.email=verif@example.com", "commit", "-q", "-m", msg)
+}
+
+type indexView struct {
+	Docs     []string
+	Branches []zoekt.RepositoryBranch
+	Raw      map[string]string
+}
+
+func viewOf(dir string) indexView {
+	ds, err := d1util.ReadDocs(dir)
+	if err != nil {
+		panic(err)
+	}
+	repos, _, err := index.ReadMetadataPathAlive(shard0(dir))
+	if err != nil || len(repos) == 0 {
+		panic(fmt.Sprintf("unreadable index in %s: %v", dir, err))
+	}
+	return indexView{Docs: renderDocs(ds), Branches: repos[0].Branches, Raw: repos[0].RawConfig}
+}
+
+// runGit: index a real git repository, change one thing, run the incremental indexer (gitindex.IndexGitRepo with
+// Incremental) and compare the resulting index with a from-scratch index of the same request.
+func (e *env) runGit(c gitCase) {
+	repo, idx, fresh := e.tmp("gitrepo"), e.tmp("gitidx"), e.tmp("gitfresh")
+	defer os.RemoveAll(repo)
+	defer os.RemoveAll(idx)
+	defer os.RemoveAll(fresh)
+	detail := gen.Detail(c)
+	git(repo, "init", "-q", "-b", "main")
+	for _, f := range corpus {
+		p := filepath.Join(repo, f.name)
+		os.MkdirAll(filepath.Dir(p), 0o755)
+		if err := os.WriteFile(p, []byte(f.content), 0o644); err != nil {
+			panic(err)
+		}
+	}
+	gitCommitAll(repo, "one")
+	git(repo, "config", "zoekt.name", "gitrepo") // without a name or an origin remote gitindex does not read the zoekt section
+	git(repo, "config", "zoekt.public", "1")
+	if c.Change == "config-remove" || c.Change == "config-change" {
+		git(repo, "config", "zoekt.archived", "1")
+	}
+	mk := func(indexDir string, incremental bool) gitindex.Options {
+		o := gitindex.Options{RepoDir: filepath.Join(repo, ".git"), Incremental: incremental, Branches: []string{"HEAD"}}
+		o.BuildOptions = index.Options{IndexDir: indexDir, DisableCTags: true, SizeMax: 150}
+		o.BuildOptions.RepositoryDescription.Name = "gitrepo"
+		return o
+	}
+	o1 := mk(idx, true)
+	if updated, err := gitindex.IndexGitRepo(o1); err != nil || !updated {
+		panic(fmt.Sprintf("first IndexGitRepo: updated=%v err=%v", updated, err))
+	}
+	o2 := mk(idx, true)
+	contentChange, metaChange := false, false
+	switch c.Change {
+	case "none":
+	case "commit":
+		os.WriteFile(filepath.Join(repo, "new.txt"), []byte("a new file in a new commit\n"), 0o644)
+		gitCommitAll(repo, "two")
+		contentChange = true
+	case "branch":
+		o2.Branches = []string{"HEAD", "main"}
+		contentChange = true
+	case "sizemax":
+		o2.BuildOptions.SizeMax = 100
+		contentChange = true
+	case "largefiles":
+		o2.BuildOptions.LargeFiles = []string{"*.big"}
+		contentChange = true
+	case "trigrammax":
+		o2.BuildOptions.TrigramMax = 20
+		contentChange = true
+	case "config-add":
+		git(repo, "config", "zoekt.fork", "1")
+		metaChange = true
+	case "config-change":
+		git(repo, "config", "zoekt.archived", "0")
+		metaChange = true
+	case "config-remove":
+		git(repo, "config", "--unset", "zoekt.archived")
+		metaChange = true
+	}
+	updated, err := gitindex.IndexGitRepo(o2)
+	if err != nil {
+		panic(fmt.Sprintf("incremental IndexGitRepo: %v", err))
+	}
+	o3 := o2
+	o3.Incremental = false
+	o3.BuildOptions.IndexDir = fresh
+	if _, err := gitindex.IndexGitRepo(o3); err != nil {
+		panic(fmt.Sprintf("fresh IndexGitRepo: %v", err))
+	}
+	got, want := viewOf(idx), viewOf(fresh)
+	goV, key := "", ""
+	switch {
+	case strings.Join(got.Docs, "\n") != strings.Join(want.Docs, "\n") || !reflect.DeepEqual(got.Branches, want.Branches):
+		goV = fmt.Sprintf("after the incremental run (updated=%v) the index differs from a from-scratch index of the same request (%s)", updated, firstDiff(want.Docs, got.Docs))
+		key = "git-incremental-differs:" + c.Change
+		if c.Change == "trigrammax" {
+			key = "unhashed:TrigramMax"
+		}
+	case !reflect.DeepEqual(got.Raw, want.Raw):
+		goV = fmt.Sprintf("after the incremental run (updated=%v) the repository metadata differs from a from-scratch index: have %v want %v", updated, got.Raw, want.Raw)
+		key = "git-meta-differs:" + c.Change
+		if c.Change == "config-remove" {
+			key = "meta-not-applied:RawConfig-removed-key"
+		}
+	case !contentChange && !metaChange && updated:
+		goV, key = "nothing changed, yet the incremental indexer re-indexed", "git-needless-reindex"
+	}
+	e.w.Emit(gen.Case{Go: goV, Key: key, Class: fmt.Sprintf("git-%s-updated=%v", c.Change, updated), Nontrivial: c.Change != "none", Detail: detail})
+}
+
 // ---------------------------------------------------------------- main
 
 func (e *env) runDetail(raw json.RawMessage, muts map[string]func(*index.Options)) {
@@ -843,6 +980,10 @@ func (e *env) runDetail(raw json.RawMessage, muts map[string]func(*index.Options
 		var c stepCase
 		json.Unmarshal(raw, &c)
 		e.runStep(c)
+	case "git":
+		var c gitCase
+		json.Unmarshal(raw, &c)
+		e.runGit(c)
 	default:
 		panic("unknown op in replay/corpus: " + probe.Op)
 	}
@@ -896,6 +1037,10 @@ func main() {
 	// dynamic confirmation: every field of index.Options, as the current source declares them
 	for _, name := range optionFieldNames() {
 		e.runDyn(dynCase{Op: "dyn", Field: name}, muts)
+	}
+	// end to end through gitindex on a real git repository: every kind of change once
+	for _, ch := range gitChanges {
+		e.runGit(gitCase{Op: "git", Change: ch})
 	}
 	r := gen.NewRand(f.Seed)
 	for i := 0; i < f.N(25, 200); i++ {
